@@ -95,8 +95,9 @@ def ref_quantile(dist, x):
 
 
 def ref_cond(dist, x, nulp=4.0):
-    """how much Q(Phi(x)) moves when Phi(x) is perturbed by `nulp` roundings *of the cdf value* (a number near 1 has
-    absolute spacing 1.1e-16): the unavoidable error of any implementation that goes through norm.cdf"""
+    """how much Q(Phi(x)) moves when Phi(x) is perturbed by `nulp` roundings *of the cdf value* (x >= 0: a number near 1 has
+    absolute spacing 1.1e-16; x < 0: relative, times the condition 1+x^2 of Phi itself): the unavoidable error of any
+    implementation that goes through norm.cdf"""
     from scipy.stats import norm
     x = np.asarray(x, dtype=float)
     r = ref_quantile(dist, x)
@@ -104,8 +105,11 @@ def ref_cond(dist, x, nulp=4.0):
         warnings.simplefilter("ignore")
         p = norm.cdf(x)
         s = norm.sf(x)
-        d = nulp * EPS * np.maximum(p, 0.5)          # absolute perturbation of the cdf value
-        lo_m, lo_p = dist.ppf(np.maximum(p - d, 0.0)), dist.ppf(np.minimum(p + d, 1.0))
+        d = nulp * EPS * np.maximum(p, 0.5)          # absolute perturbation of the cdf value (x >= 0: spacing of floats near 1)
+        # round 2: in the LOWER tail the cdf value is a small float with full relative precision; what is unavoidable there is
+        # the relative condition x*phi/Phi ~ x^2 of Phi (erfc argument x/sqrt2 rounded): relative perturbation nulp*eps*(1+x^2)
+        dl = nulp * EPS * p * (1.0 + x * x)
+        lo_m, lo_p = dist.ppf(np.maximum(p - dl, 0.0)), dist.ppf(np.minimum(p + dl, 1.0))
         hi_m, hi_p = dist.isf(np.minimum(s + d, 1.0)), dist.isf(np.maximum(s - d, 1e-300))
     a = np.where(x < 0, lo_m, hi_m)
     b = np.where(x < 0, lo_p, hi_p)
